@@ -100,7 +100,7 @@ def run(ctx):
         if k.startswith(BI) and i.get("eff_pub") and not i.get("closure") and i["body"]["argc"] == 1 and i["name"].endswith("_tag") or \
                 (k.startswith(BI) and i.get("eff_pub") and i["name"] in ("elf_sections", "module_tags")):
             nm = i["name"]
-            if nm not in S.MBI_GETTERS and nm not in S.MBI_WRAPPER_GETTERS and nm != "get_tag":
+            if nm not in S.MBI_GETTERS and nm not in S.MBI_WRAPPER_GETTERS and nm != "get_tag" and not TT.added_getter(ctx, F, BI, i, "G1"):
                 ctx.fail("G1", "unmapped:" + nm, "getter %s is in the getter table" % nm, i.get("span", ""), "unmapped typed getter")
     # ---------------------------------------------------------------- G2 (polymorphic get_tag)
     gt = F.fns.get("multiboot2::boot_information::BootInformation::<'a>::get_tag")
